@@ -141,7 +141,19 @@ Proof.
   - by rewrite lookup_alter_ne.
 Qed.
 
-(** ** fuel: a chain of distinct live blocks is no longer than the number of live blocks *)
+(** ** fuel: a chain of distinct blocks with identities below [n] has fewer than [n] elements *)
+Lemma NoDup_length_lt_pos (l : list positive) (n : positive) :
+  NoDup l -> (forall x, x ∈ l -> (x < n)%positive) -> length l < Pos.to_nat n.
+Proof.
+  intros ND Hlt.
+  assert (H : Pos.to_nat <$> l ⊆+ seq 1 (Pos.to_nat n - 1)).
+  { apply NoDup_submseteq.
+    - apply NoDup_fmap_2_strong; [|done]. intros ?? _ _. apply Pos2Nat.inj.
+    - intros k Hk. apply elem_of_list_fmap in Hk as (x & -> & Hx). apply elem_of_seq.
+      pose proof (Hlt _ Hx). lia. }
+  apply submseteq_length in H. rewrite fmap_length, seq_length in H. lia.
+Qed.
+
 Lemma NoDup_length_le_size (l : list positive) (X : gset positive) :
   NoDup l -> (forall x, x ∈ l -> x ∈ X) -> length l <= size X.
 Proof.
